@@ -297,8 +297,11 @@ with sh_args (m : N) (a : args) : args :=
 Definition sh_oexpr m (e : option expr) := match e with Some e => Some (sh_expr m e) | None => None end.
 Definition sh_iface (m : N) (i : iface) : iface :=
   IFace (shift_occ m (i_occ i)) (i_mode i) (om_tmark (shift_occ m) (i_ty i)) (sh_oexpr m (i_def i)).
-(* only declarations without statements and without a region of their own are duplicated (subprogram bodies and
-   component declarations are not plant sites: a formal named like the component would be rejected first) *)
+(* declarations without a region of their own are repeated literally (with shifted node ids); the copy of a
+   subprogram body is a second body of the same subprogram with an empty declarative part and no statements (its
+   statements are never looked at: the copy is rejected at its name, either because the first body completed the
+   obligation of the package, or because it clashes with the first body's binding of the same profile); component
+   declarations are not plant sites: a formal named like the component would be rejected first *)
 Definition sh_decl (m : N) (d : decl) : option decl :=
   match d with
   | DType o td => Some (DType (shift_occ m o) (om_tydef (shift_occ m) td))
@@ -307,6 +310,9 @@ Definition sh_decl (m : N) (d : decl) : option decl :=
   | DSignal o t i => Some (DSignal (shift_occ m o) (om_tmark (shift_occ m) t) (sh_oexpr m i))
   | DFunDecl o ps r => Some (DFunDecl (shift_occ m o) (map (om_param (shift_occ m)) ps) (om_tmark (shift_occ m) r))
   | DProcDecl o ps => Some (DProcDecl (shift_occ m o) (map (om_param (shift_occ m)) ps))
+  | DFunBody o ps r ls b =>
+      Some (DFunBody (shift_occ m o) (map (om_param (shift_occ m)) ps) (om_tmark (shift_occ m) r) [] SNil)
+  | DProcBody o ps ls b => Some (DProcBody (shift_occ m o) (map (om_param (shift_occ m)) ps) [] SNil)
   | _ => None
   end.
 Fixpoint dup_decls (s m : N) (ds : list decl) : list decl :=
